@@ -152,10 +152,22 @@ class SimConn:
         self.no_peername = False
         self._lost_called = False
         self._held_upto = None
+        self._rst_scheduled = False
+        self._sched_points = []         # (time, stream offset) of every scheduled delivery
 
     # --- client side events ------------------------------------------------------------------
     def _client_wrote(self, data):
         now = self.net.loop.time()
+        if self.peer_closed:
+            # the peer has closed (FIN) but the protocol asked to keep the transport open (eof_received() -> True):
+            # the first write goes into the dead socket, the peer answers it with RST, the next one fails (EPIPE)
+            self.net.trace("c>dead", self.cid, len(data))
+            self.net.stats["write_to_half_closed"] += 1
+            if not self._rst_scheduled:
+                self._rst_scheduled = True
+                self.net.loop.call_later(2 * MIN_LAT, self.transport._force_close,
+                                         ConnectionResetError(104, "Connection reset by peer"))
+            return
         self.rx.append((now, data))
         self.net.trace("c>s", self.cid, len(data), data)
         self.server.on_data(self, data)
@@ -196,12 +208,17 @@ class SimConn:
         points = sorted(set(points)) + [len(data)]
         for i, p in enumerate(points):
             last = (i == len(points) - 1)
+            if last and hold == "next":
+                # kept back until the server sends something else on this connection (a unit that answers a
+                # request only together with the next one)
+                break
             if last and hold:
                 t_flush = t + 0.25
                 loop.at(t_flush, self._deliver_upto, base + p)
                 # later sends may be scheduled before the flush: they deliver these bytes too
                 break
             loop.at(t, self._deliver_upto, base + p)
+            self._sched_points.append((t, base + p))
             self._last_sched = t
             t = t + max(gap, TICK)
         return self._last_sched
@@ -254,6 +271,13 @@ class SimConn:
     def _deliver_close(self, rst):
         if self.peer_closed or self.transport._conn_lost:
             return
+        # TCP order: bytes scheduled for this very instant (or earlier) are read before the FIN / RST is seen
+        now = self.net.loop.time()
+        due = [off for (t, off) in self._sched_points if t <= now]
+        if due and max(due) > self.tx_delivered and not rst:
+            self._deliver_upto(max(due))
+            if self.peer_closed or self.transport._conn_lost:
+                return
         self.peer_closed = True
         self.net.trace("s-close", self.cid, "rst" if rst else "fin")
         if rst:
